@@ -66,6 +66,31 @@ class CaseTimeout(Exception):
     importers of vf.runner share ONE class."""
 
 
+class watchdog:
+    """with watchdog(seconds): ...   raises CaseTimeout inside the block when it runs too long (SIGALRM, main thread).
+    For tight enumeration loops that do not go through Collector.eval."""
+
+    def __init__(self, seconds):
+        self.seconds = seconds
+
+    def __enter__(self):
+        import signal
+
+        def _alarm(signum, frame):
+            raise CaseTimeout()
+
+        self._old = signal.signal(signal.SIGALRM, _alarm)
+        signal.setitimer(signal.ITIMER_REAL, self.seconds)
+        return self
+
+    def __exit__(self, *exc):
+        import signal
+
+        signal.setitimer(signal.ITIMER_REAL, 0)
+        signal.signal(signal.SIGALRM, self._old)
+        return False
+
+
 class SutError(Exception):
     """An exception that escaped from the code under test (innermost frame under REPO/codelimit)."""
 
